@@ -12,8 +12,9 @@
 (* (the JSON object the harness logs).  Values are in the harness's shape:  *)
 (*   date [y,m,d]  time [h,mi,s,ms,us,ns]  datetime = both  yearmonth       *)
 (*   [y,m,rd] (rd = hidden reference day).                                  *)
-(* Outcomes: Ok(v) | ErrRange | ErrType | ErrAny (invalid for a TypeError   *)
-(* reason and for a RangeError reason at once: either kind is accepted).    *)
+(* Outcomes: Ok(v) | ErrRange | ErrType. A record that lacks a required     *)
+(* field is a TypeError even when a supplied field is out of range as well  *)
+(* (Temporal checks the required fields before resolving and regulating).   *)
 (***************************************************************************)
 EXTENDS DateArith, TLC
 
@@ -84,7 +85,9 @@ DefiniteRange(p, ovf) ==
         \/ ~TimeOK(MergeTime(MidnightRec, p))
 MissingDate(p) == ~Sup(p, "year") \/ ~HasMonth(p) \/ ~Sup(p, "day")
 MissingYm(p) == ~Sup(p, "year") \/ ~HasMonth(p)
-TypeOr(p, ovf) == IF DefiniteRange(p, ovf) THEN ErrAny ELSE ErrType
+\* a record that lacks a required field is a TypeError even if a supplied field is also out of range: Temporal checks the required
+\* fields (CalendarResolveFields step 1) before it resolves the month and regulates the date
+TypeOr(p, ovf) == ErrType
 
 (* ---------------- PlainDate ---------------- *)
 WithDate(recv, p, ovf) ==
